@@ -973,8 +973,7 @@ static Value builtin_array_slice(Value *args) {
         Array *arr = args[0].as.array_val;
         int64_t len = arr->length;
         if (start > len) start = len;
-        int64_t end = start + length;
-        if (end > len) end = len;
+        int64_t end = (length > len - start) ? len : start + length;  /* no overflow */
         int64_t out_len = end - start;
 
         Value out = create_array(arr->element_type, out_len, out_len);
@@ -1016,8 +1015,7 @@ static Value builtin_array_slice(Value *args) {
         DynArray *arr = args[0].as.dyn_array_val;
         int64_t len = dyn_array_length(arr);
         if (start > len) start = len;
-        int64_t end = start + length;
-        if (end > len) end = len;
+        int64_t end = (length > len - start) ? len : start + length;  /* no overflow */
 
         ElementType t = dyn_array_get_elem_type(arr);
         DynArray *out = dyn_array_new(t);
